@@ -533,6 +533,17 @@ func runC13(r *Run, verifDir string) {
 					g, ok := u.X.(*ssa.Global)
 					return ok && g == x
 				})
+				// ... and only where the server said it does not support discovery (Operation Failed / Operation Not
+				// Supported): an answered discovery without a common version is a failure to connect, not a fallback
+				unsupported := false
+				for _, dc := range dominatingConds(st.Block()) {
+					if bo, ok := dc.cond.(*ssa.BinOp); ok && bo.Op == token.EQL && dc.outcome && typeName(bo.X.Type()) == "ResultReason" {
+						unsupported = true
+					}
+				}
+				if okG && !unsupported {
+					bad = fmt.Sprintf("the fallback version %s is adopted on a path where the server did not answer `operation not supported`: a server that answered discovery with no common version (e.g. an empty list) must make the connection fail, not settle on a version it never advertised", name)
+				}
 				if !okG {
 					bad = fmt.Sprintf("the fallback version %s is adopted without checking that it is in the client's configured set", name)
 				}
